@@ -12,8 +12,9 @@ Kinds of cases:
   vi     the same in Vi mode (x X s D C dd yy Y cc S p P "xp "xP, visual y/d/x/"xy/"xd with the three
          selection types); the model predicts text, cursor, ring and named registers.
   paste  Document.paste_clipboard_data called directly (all data types, paste modes, counts).
-  cut    Document.cut_selection called directly (all selection types, both editing modes), followed by
-         paste_clipboard_data(VI_BEFORE) of the cut data at the cursor it left.
+  cut    Document.selection_ranges and Document.cut_selection called directly (all selection types, both
+         editing modes, incl. the empty text and empty lines; the ranges themselves are compared, signed),
+         followed by paste_clipboard_data(VI_BEFORE) of the cut data at the cursor it left.
   ring   InMemoryClipboard driven through set_data / rotate / get_data.
   pyclip the real PyperclipClipboard on top of a one-string stand-in for the pyperclip module
          (set_data / get_data / rotate, and other programs overwriting the system clipboard).
@@ -482,11 +483,13 @@ def run_cut(text, cur, orig, ty, vi):
     ed = get_ed()
     ed.app.editing_mode = EditingMode.VI if vi else EditingMode.EMACS
     doc = Document(text, cur, SelectionState(original_cursor_position=orig, type=TY[ty]))
+    ranges = [(int(f), int(t)) for f, t in doc.selection_ranges()]
     rem, data = doc.cut_selection()
     try:
         back = Document(rem.text, rem.cursor_position).paste_clipboard_data(data, paste_mode=PasteMode.VI_BEFORE)
     except AssertionError:
         back = None
+    run_cut.ranges = ranges
     return rem, data, back
 
 
@@ -603,7 +606,9 @@ def impl_lines(case):
     elif k == "cut":
         for cur, orig, ty, vi in case["qs"]:
             rem, data, back = run_cut(case["text"], cur, orig, ty, vi)
-            out.append(f"{enc_str(rem.text)} {rem.cursor_position} {enc_clip(data)} | "
+            rs = run_cut.ranges
+            out.append(f"{len(rs)}" + "".join(f" {f} {t}" for f, t in rs)
+                       + f" | {enc_str(rem.text)} {rem.cursor_position} {enc_clip(data)} | "
                        + ("err" if back is None else f"{enc_str(back.text)} {back.cursor_position}"))
     elif k == "pyclip":
         for cell, d in run_pyclip(case):
